@@ -674,6 +674,19 @@ func badSig(r *vhlib.Rand) int {
 	return 0
 }
 
+// hugeWindowEnd sometimes moves the proof window end to the limits of what the host can store (heights are
+// stored as int64): 2^63-1 is the last storable value, nothing in the validators bounds the window end from above.
+func hugeWindowEnd(tr *vhlib.Trace, r *vhlib.Rand, f *rv) {
+	if r.Chance(1, 10) {
+		f.WE = pickU64(r, math.MaxInt64-1, math.MaxInt64, math.MaxInt64, 1<<63, 1<<63, (1<<63)+1, math.MaxUint64)
+	}
+	if f.WE > math.MaxInt64 {
+		tr.Count("we:gt_int64")
+	} else if f.WE >= math.MaxInt64-1 {
+		tr.Count("we:at_int64_limit")
+	}
+}
+
 func genC12(tr *vhlib.Trace, r *vhlib.Rand, rpc bool) {
 	s, h := genSettings(r)
 	rk := 0
@@ -703,6 +716,7 @@ func genC12(tr *vhlib.Trace, r *vhlib.Rand, rpc bool) {
 	case kind < 34: // formation
 		f := honestFormation(r, hv, s)
 		mutateContract(r, &f)
+		hugeWindowEnd(tr, r, &f)
 		mutateSettingsArg(r, &s, &h)
 		if rpc {
 			doRPCForm2(tr, f, rk, h, rh, s, badSig(r), d)
@@ -733,6 +747,7 @@ func genC12(tr *vhlib.Trace, r *vhlib.Rand, rpc bool) {
 		f := honestRenewal(r, e, hv, s, new(big.Int).Mod(base, two128), new(big.Int).Mod(risk, two128), v3)
 		f.WS, f.WE = probe.WS, probe.WE
 		mutateContract(r, &f)
+		hugeWindowEnd(tr, r, &f)
 		mutateSettingsArg(r, &s, &h)
 		if rpc {
 			// clearing values: transfer of the base RPC price (v2) / nothing (v3)
